@@ -111,7 +111,7 @@ PROPS = {
         "design_ref": "DESIGN.md §3.18, §4 C18",
     },
     "C16": {
-        "rules": ["CHILDREN", "FINDORDER", "PASTTOTAL", "NOMATCH", "EXH", "FIELDS"],
+        "rules": ["CHILDREN", "FINDORDER", "COUNTGROUP", "FALSYZERO", "PASTTOTAL", "NOMATCH", "EXH", "FIELDS"],
         "thorough": [],
         "technique": "static analysis: ADT-order agreement of the child enumerator, call-order rule for the search recursion, table totality, dispatch exhaustiveness and per-case field coverage of the matcher",
         "level_text": "Structural clauses of find(): the child enumerator yields, for every constructor, exactly the ADT's child fields in declaration (= program) order; "
@@ -163,7 +163,7 @@ PROPS = {
         "design_ref": "DESIGN.md §3.13, §4 C11",
     },
     "C19": {
-        "rules": ["ANNOTONLY", "PREDSONLY", "PEVAL", "CHILDREN", "TRAV@C19", "TRAVBASE", "NOPROV", "EXH"],
+        "rules": ["ANNOTONLY", "PREDSONLY", "PEVAL", "READKINDS", "CHILDREN", "TRAV@C19", "TRAVBASE", "NOPROV", "EXH"],
         "thorough": [],
         "technique": "static analysis: written-field sets of the annotation primitives, constructor-argument identity for add_assertion, substitution/traversal completeness for partial_eval",
         "level_text": "Structural clauses: set_precision/set_memory/set_window, parallelize_loop, rename and make_instr write only annotation fields (type/mem/is_window/src_type/as_tensor, loop_mode, "
@@ -216,7 +216,7 @@ PROPS = {
         "design_ref": "DESIGN.md §3.12, §4 C06",
     },
     "C01": {
-        "rules": ["GUARD", "CONDSPEC", "PREDSPEC", "CHECKFORM", "CTXSHAPE", "ENVSHADOW", "EQVSHAPE", "ALIASCLOSED", "WINCOMPOSE", "ZIPLEN", "NAMECONF", "FIELDS", "VERDICT", "VERDICTUSE", "LAYER", "CHILDREN", "EXH", "TRAV@C01", "TRAVBASE", "BYPASS"],
+        "rules": ["GUARD", "CONDSPEC", "PREDSPEC", "CHECKFORM", "CTXSHAPE", "ENVSHADOW", "EQVSHAPE", "ALIASCLOSED", "WINCOMPOSE", "ZIPLEN", "NAMECONF", "FIELDS", "VERDICT", "VERDICTUSE", "LAYER", "CHILDREN", "READKINDS", "EXH", "TRAV@C01", "TRAVBASE", "BYPASS"],
         "thorough": [],
         "technique": "static analysis: per-primitive obligation table decided by a must-analysis (dominance of side conditions over tree edits, with raising guards, flag assumptions and check-argument provenance), plus comparison/identity/verdict/layering/traversal rules",
         "level_text": "Structural clauses, decided for all programs and schedules from the source: every scheduling primitive reaches its tree edits only through the side conditions "
@@ -230,7 +230,7 @@ PROPS = {
         "design_ref": "DESIGN.md §3.3-3.8, §4 C01, Appendix A",
     },
     "C04": {
-        "rules": ["GUARD", "CONDSPEC", "CHECKFORM", "BINDERS", "ALIASCLOSED", "WINCOMPOSE", "ANNOTSYNC", "FWDTHREAD", "TRAV@C04", "TRAVBASE"],
+        "rules": ["GUARD", "CONDSPEC", "CHECKFORM", "BINDERS", "ALIASCLOSED", "WINCOMPOSE", "ANNOTSYNC", "READKINDS", "FWDTHREAD", "TRAV@C04", "TRAVBASE"],
         "thorough": [],
         "technique": "static analysis: post-edit Check_Bounds/Check_Aliasing obligations and scope guards from the primitive table (must-analysis), binder-coverage of scope-environment builders, renaming of duplicated code",
         "level_text": "Structural clauses: every shape-changing rewrite (expand/resize/fold/stage) passes its result to Check_Bounds after the last edit; primitives that introduce a call or rewrite "
